@@ -229,14 +229,22 @@ pub fn gen_c12_data(sh: &mut Shards, o: &Opts) -> serde_json::Value {
             }
         }
     }
-    // verbatim: accepted frames expose exactly the samples, dimensions and (resolved) config they were given
-    for &(w, h) in sizes {
+    // verbatim: accepted frames expose exactly the samples, dimensions and (resolved) config they were given.  Also widths at
+    // which a plane is exactly contiguous (stride == width: 32 / 64 / 128 samples), horizontal and vertical padding chosen
+    // independently, padding filled with a value ABOVE 2^n - 1 (only visible samples count), and a luma plane that
+    // carries a decimation tag of its own (the statement constrains the chroma planes' decimation only)
+    let vsizes: Vec<(usize, usize)> = sizes.iter().copied().chain([(32usize, 4usize), (64, 2), (128, 8), (96, 4)]).collect();
+    let mut vk = 0usize;
+    for &(w, h) in &vsizes {
         for (sx, sy) in [(0usize, 0usize), (1, 1), (1, 0), (2, 2)] {
             if w % (1 << sx) != 0 || h % (1 << sy) != 0 {
                 continue;
             }
             for st in [8u8, 16] {
-                for pad in [0usize, 1, 17] {
+                for (xpad, ypad) in [(0usize, 0usize), (1, 1), (17, 17), (0, 3), (5, 0)] {
+                    vk += 1;
+                    let pad = xpad.max(ypad);
+                    let (lxd, lyd) = [(0usize, 0usize), (0, 0), (1, 1), (0, 2), (1, 0)][vk % 5];
                     let n: u8 = if st == 8 { 8 } else { [9u8, 10, 12, 16][rng.below(4) as usize] };
                     let cfg = Cfg { mc: [1u8, 5, 9, 2][rng.below(4) as usize], tc: [1u8, 13, 2][rng.below(3) as usize], cp: [1u8, 9, 2][rng.below(3) as usize], full: rng.below(2) == 0, n, ssx: sx as u8, ssy: sy as u8 };
                     let mut given: [Vec<u16>; 3] = [Vec::new(), Vec::new(), Vec::new()];
@@ -260,8 +268,8 @@ pub fn gen_c12_data(sh: &mut Shards, o: &Opts) -> serde_json::Value {
                     macro_rules! go {
                         ($t:ty) => {{
                             let mk = |k: usize| {
-                                let gk = PlaneGeom { w: dims[k].0, h: dims[k].1, xdec: if k == 0 { 0 } else { sx }, ydec: if k == 0 { 0 } else { sy }, xpad: pad, ypad: pad };
-                                make_plane::<$t>(gk, Some(7), |x, y| given[k][y * dims[k].0 + x])
+                                let gk = PlaneGeom { w: dims[k].0, h: dims[k].1, xdec: if k == 0 { lxd } else { sx }, ydec: if k == 0 { lyd } else { sy }, xpad, ypad };
+                                make_plane::<$t>(gk, Some(if vk % 2 == 0 { 0xffff } else { 7 }), |x, y| given[k][y * dims[k].0 + x])
                             };
                             match Yuv::<$t>::new(Frame { planes: [mk(0), mk(1), mk(2)] }, cfg.yuv_config()) {
                                 Ok(y) => {
